@@ -980,18 +980,16 @@ def obligations(tier):
             tag = "-".join(f"{op}{who}" for op, who in seq)
             obs.append(Obligation(f"history-size{size}-atoms{natoms}-{tag}", h_history, {"size": size, "ops": list(seq), "natoms": natoms}, group="history", time_cap=3000, max_paths=200000))
 
-    if tier == "quick":
-        hist(2, 1, 2)
-    else:
-        hist(2, 2, 2)
-        hist(2, 1, 3)
-        # cell size 5: one operation on two atoms (three atoms / two operations at size 5 were measured at > 12 min of
-        # solver time per obligation - floor division by 5 over three symbolic points - and are not registered)
+    hist(2, 1, 2)
+    if tier == "thorough":
+        # measured: one operation on two atoms at size 5 takes 27 s for the eight sequences; three atoms, or two operations,
+        # take more than 15-25 min per group even at size 2 (three / four symbolic points under floor division) and are
+        # not registered (even two selected two-operation sequences ran past 20 min)
         hist(5, 1, 2)
     for size in (2, 5):
-        for natoms in (2,) if tier == "quick" or size == 5 else (2, 3):
+        for natoms in (2,):
             last = natoms - 1
-            for tail in ([], [("move", last)], [("move", 0)]) if tier == "thorough" else ([],):
+            for tail in ([],):
                 seq = [("add", last)] + tail
                 tag = "-".join(f"{op}{who}" for op, who in seq)
                 obs.append(Obligation(f"history-stale-size{size}-atoms{natoms}-{tag}", h_history, {"size": size, "ops": seq, "natoms": natoms, "stale": True}, group="history", time_cap=3000, max_paths=200000))
@@ -1039,7 +1037,7 @@ META = dict(
     bounds=[
         "coordinates: unbounded reals (no range restriction)",
         "cell sizes: quick {2,5}; thorough key lemma 1..10, query 1,2,3,5,10",
-        "histories: assign_cells on natoms-1 atoms (+1 outside), then every sequence of nops operations from {add, remove, move=remove/write/add with fresh symbolic coordinates, readd} x atom (operation sequences enumerated, coordinates symbolic), then a query from every present atom; quick: 2 atoms x 1 op at size 2; thorough: 2 atoms x 2 ops and 3 atoms x 1 op at size 2, 2 atoms x 1 op at size 5 (larger size-5 histories: > 12 min of solver time each, not registered); plus histories in which the outside atom carries a stale key from an earlier map when it is added",
+        "histories: assign_cells on natoms-1 atoms (+1 outside), then every sequence of nops operations from {add, remove, move=remove/write/add with fresh symbolic coordinates, readd} x atom (operation sequences enumerated, coordinates symbolic), then a query from every present atom; quick: 2 atoms x 1 op at size 2; thorough adds 2 atoms x 1 op at size 5 (three atoms or two operations: > 15-25 min per group, measured, not registered); plus histories in which the outside atom carries a stale key from an earlier map when it is added",
         "call sites: SER/CYS/LYS/ARG scans of 2-4 steps x 1-2 rounds; Water from five pre-states (bare, H1, H1+LP1, LP1+LP2, H1+LP1+LP2), Alcoholic from three, each with and without complete(); try_both undo from two pre-states each; Carboxylic: ASH (thorough also GLH), 0-2 attempts then complete + cleanup; all on one SER/ASH/HOH fixture",
     ],
     outside=[
@@ -1055,7 +1053,7 @@ META = dict(
 
 MANIFEST = dict(
     text='For C14: Cells.add_cell/remove_cell/get_near_cells/assign_cells for ALL real coordinates (unbounded), cell sizes 2 and 5 (1..10 thorough), against a Euclidean brute-force oracle, over every add/remove/move/readd sequence up to the stated length; plus the call sites that are supposed to keep the map in step with coordinate writes and atom deletions - Debump.set_dihedral_angle, the Debump.debump_residue scan, Flip, Water/Alcoholic finalize/complete/try_both, the Carboxylic optimisation (rotations abstracted to arbitrary positions, outcomes of geometric tests symbolic selectors): on return and at every neighbour query each atom is binned where it is and no deleted atom is listed; the distance cut-offs of the callers lie within the cell size the real set-up configures (relational two-run obligation); a map rebuilt between passes lists exactly the live atoms.',
-    note='Trusted: z3, the symx int()-truncation, numpy-subset and association-list dict models (validated against CPython each run). Coordinates are exact reals (add_cell only compares with 0 and truncates, exact on doubles). Histories bounded (quick: 2 atoms x 1 op; thorough: 2 atoms x 2 ops, 3 atoms x 1 op at cell size 2; 2 atoms x 1 op at size 5). Call-site obligations abstract the geometry (any position may result from a rotation; any outcome of a geometric test), so they over-approximate the reachable states of each site: a violation there is replayed concretely before it is reported.',
+    note='Trusted: z3, the symx int()-truncation, numpy-subset and association-list dict models (validated against CPython each run). Coordinates are exact reals (add_cell only compares with 0 and truncates, exact on doubles). Histories bounded (2 atoms x 1 operation at cell sizes 2 and 5; longer ones were measured at > 15 min per group and are not registered). Call-site obligations abstract the geometry (any position may result from a rotation; any outcome of a geometric test), so they over-approximate the reachable states of each site: a violation there is replayed concretely before it is reported.',
     technique='symbolic execution of real code on z3 Real/Int proxies (symx) + SMT verdict per path',
     design='DESIGN.md section 3 C14',
 )
